@@ -108,6 +108,47 @@ def oracle_value(t, csx, c, val_s, hexbytes):
     return None
 
 
+def rec_schema_stage(exe, seed, stats, classes, disagreements, failures):
+    import rectypes as RT
+    import reccorr
+    res = run_cases(exe, [case_line('rs_' + n, 'schema', RT.IDS[n], '(ref %s)' % n) for n in RT.ITEMS])
+    conts = {}
+    for n in RT.ITEMS:
+        a = res.get('rs_' + n)
+        if a is None or not a.startswith('ok '):
+            disagreements.append({'what': 'schema op failed for the recursive item %s: %s' % (n, a)})
+            continue
+        csx, val, mx = a[3:].split('\t')
+        c = O.parse_container(csx)
+        conts[n] = (csx, c)
+        missing = closed(c)
+        if missing:
+            failures.append({'class': 'not-closed', 'key': n, 'what': 'for_type::<%s>() references undefined declarations %s' % (n, missing), 'container': csx})
+        if val != 'ok':
+            failures.append({'class': 'validate-other', 'key': n, 'what': 'validate() of for_type::<%s>() (a recursive item) fails with %s' % (n, val), 'container': csx})
+    plan = [p for p in reccorr.plan(seed, 'quick') if p[1] in conts]
+    enc = run_cases(exe, [case_line(cid, 'enc', RT.IDS[name], RT.sexp_unfold(name, d), v) for cid, name, d, sh, v in plan])
+    n_ok = 0
+    for cid, name, d, sh, v in plan:
+        r = enc.get(cid) or ''
+        if '\t' not in r or not r.split('\t', 1)[1].startswith('ok '):
+            continue
+        h = r.split('\t', 1)[1][3:]
+        csx, c = conts[name]
+        stats['evaluations'] += 1
+        bad = oracle_value(RT.unfold(name, d), csx, c, v, h)
+        classes['rec-value:' + ('ok' if bad is None else 'fail')] += 1
+        if bad is None:
+            n_ok += 1
+        else:
+            failures.append({'class': 'schema-wire', 'key': '%s %s' % (name, v[:80]),
+                             'what': 'for_type::<%s>() does not describe the bytes of the value %s (depth %d): %s [bytes %s]' % (name, v[:200], d, bad, h[:200]),
+                             'item': name, 'value': v, 'bytes': h, 'container': csx})
+    stats['recursive_items'] = {'containers': len(conts), 'values_decoded_with_the_container_alone': n_ok}
+    if conts and n_ok < 40:
+        disagreements.append({'what': 'recursive items: only %d values were decoded through their containers' % n_ok})
+
+
 def run(tier, seed, t0):
     coq = coq_property(PID)
     driver = ensure_driver()
@@ -282,6 +323,11 @@ def run(tier, seed, t0):
         for name in tab:
             if name not in mtab and name != '()':
                 disagreements.append({'what': 'schema.rs has a primitive %s the model does not know' % name})
+
+    # recursive derived items (no type in the model's universe): the property itself on the implementation -
+    # for_type::<Item>() is closed and validates, and decodes the implementation's bytes of generated values
+    # (depth up to 6) completely, to the structure computed from the item's unfolding at the depth of the value
+    rec_schema_stage(exe, seed, stats, classes, disagreements, failures)
 
     # (4) + oracle: values
     nval = 6 if tier == 'quick' else 24
